@@ -277,6 +277,34 @@ fn lookup_scan(which: &str) {
     }
 }
 
+/// load-batch: stdin lines of hex words (instructions only; a header is prepended); per line prints
+/// `Ok <11 section sizes> fns=<per function: params/blocks/[insts per block]>` or `Err <Debug of the error>`; PANIC on panic.
+fn load_batch() {
+    use std::io::BufRead;
+    let stdin = std::io::stdin();
+    for line in stdin.lock().lines() {
+        let line = line.unwrap();
+        let mut words = vec![0x07230203u32, 0x00010000, 0, 100, 0];
+        words.extend(line.split_whitespace().map(|a| u32::from_str_radix(a.trim_start_matches("0x"), 16).unwrap()));
+        let r = std::panic::catch_unwind(|| rspirv::dr::load_words(&words));
+        match r {
+            Ok(Ok(m)) => {
+                let fns: Vec<String> = m.functions.iter().map(|f| format!("{}{}p{}b[{}]", f.def.is_some() as u8, f.end.is_some() as u8,
+                    f.parameters.len(), f.blocks.iter().map(|b| format!("{}:{}", b.label.is_some() as u8, b.instructions.len())).collect::<Vec<_>>().join(","))).collect();
+                println!("Ok {} {} {} {} {} {} {} {} {} {} {} fns={}", m.capabilities.len(), m.extensions.len(), m.ext_inst_imports.len(),
+                    m.memory_model.is_some() as u8, m.entry_points.len(), m.execution_modes.len(), m.debug_string_source.len(),
+                    m.debug_names.len(), m.debug_module_processed.len(), m.annotations.len(), m.types_global_values.len(), fns.join(";"));
+            }
+            Ok(Err(e)) => {
+                let d = format!("{:?}", e);
+                let short: String = d.chars().take(60).collect();
+                println!("Err {}", short.replace(' ', "_"));
+            }
+            Err(_) => println!("PANIC"),
+        }
+    }
+}
+
 fn main() {
     let args: Vec<String> = env::args().collect();
     match args.get(1).map(|s| s.as_str()) {
@@ -287,6 +315,7 @@ fn main() {
         Some("decoder-script") => decoder_script(&args[2..]),
         Some("storage-script") => storage_script(&args[2..]),
         Some("table-dump") => table_dump(&args[2]),
+        Some("load-batch") => load_batch(),
         Some("lookup-scan") => lookup_scan(&args[2]),
         _ => {
             eprintln!("usage: vreplay <subcommand> ...");
